@@ -61,11 +61,12 @@ Definition check_interp (exact cm : bool) (raw : raw_t) (query : list (Z * Z)) (
   && fl_eqb (map f_gen frows) own_f
   && extl_eqb (interp_genpos rows (own_pairs rows)) (fin_gens rows).
 
-Definition check_igmap (exact cm : bool) (raw : raw_t) (query : list (Z * Z))
-    (impl : list Z * list Z * list ext * (list Z * list Z * list Z * list Z)) (keys : list Z) : bool :=
+(** [pay]: the vrnt_stop / vrnt_name / vrnt_fncode arrays handed to ExtendedGeneticMap.interp_gmap go to the new map unchanged *)
+Definition check_igmap (exact cm : bool) (raw : raw_t) (query : list (Z * Z)) (pay : list (list Z))
+    (impl : list Z * list Z * list ext * (list Z * list Z * list Z * list Z)) (pay_impl : list (list Z)) (keys : list Z) : bool :=
   let '(chr, phy, gen, meta) := impl in
   let '(q, g, m) := interp_gmap (to_rows cm raw) query in
-  pairs_eqb q (combine chr phy) && (length chr =? length phy)%nat && cmp exact gen g && meta_eqb m meta
+  pairs_eqb q (combine chr phy) && (length chr =? length phy)%nat && cmp exact gen g && meta_eqb m meta && zll_eqb pay pay_impl
   && zl_eqb keys (let '(names, _, _, _) := m in names).
 
 Definition check_gdist_g (exact cm : bool) (raw : raw_t) (ast asp rst rsp cst csp : option Z)
